@@ -26,7 +26,18 @@ def shards(tier, seed, prop):
         n = 2 if tier == 'quick' else 16
         out.append({'name': f'rand{j}', 'what': 'rand', 'count': lim['nrand'] // n,
                     'maxdepth': lim['maxdepth'], 'nbig': lim['nbig'] // n})
+    # datasets of a few hundred examples (around 2^8, where index arrays and
+    # serialized stores may change representation): every operation once, and
+    # seeded pairs of operations
+    JL = 4
+    for j in range(JL):
+        out.append({'name': f'large{j}', 'what': 'large', 'mod': JL, 'rem': j,
+                    'pairs': 150 if tier == 'quick' else 3000})
     return out
+
+
+LARGE_SOURCES = [('dict', 257, 'pickle'), ('list', 300, 'pickle'), ('list', 256, 'wu'),
+                 ('dict', 1000, 'copy')]
 
 
 def iter_programs(spec, prop):
@@ -38,6 +49,17 @@ def iter_programs(spec, prop):
                 cnt += 1
                 if cnt % spec['mod'] == spec['rem']:
                     yield prog
+    elif spec['what'] == 'large':
+        rng = rng_for(spec['seed'], prop, 'large')     # same plan in every shard
+        cnt = 0
+        for src in LARGE_SOURCES:
+            alpha = programs.alphabet(src[1], src[0])
+            plan = [[op] for op in alpha]
+            plan += [[rng.choice(alpha), rng.choice(alpha)] for _ in range(spec['pairs'])]
+            for ops in plan:
+                cnt += 1
+                if cnt % spec['mod'] == spec['rem']:
+                    yield {'src': src, 'ops': ops}
     else:
         rng = rng_for(spec['seed'], prop, spec['name'])
         for _ in range(spec['count']):
@@ -59,7 +81,11 @@ def run(spec, res, prop, aspects, judge, nontrivial, prefix_hook_factory=None):
     ld = import_lazy_dataset()
     for prog in iter_programs(spec, prop):
         hook = prefix_hook_factory(prog, res) if prefix_hook_factory else None
-        status, m, o = progengine.run_case(ld, prog, aspects, prefix_hook=hook)
+        status, m, o = progengine.run_case(ld, prog, aspects, prefix_hook=hook,
+                                           watchdog_s=60 if spec['what'] == 'large' else 8)
+        if spec['what'] == 'large' and status == 'ok':
+            res.count('large_dataset_programs')
+            res.maximum('largest_result_compared', m.n if m.finite else 0)
         if status == 'skip':
             res.count('status:skip')
             continue
